@@ -654,16 +654,86 @@ type PackConfig struct {
 	// other units keep every mode). Only if MaxPacket is so small that the
 	// parameter set fits neither is it fragmented after all.
 	WholeParamSets bool
+	// HeaderExtras decorates a share of the packets (every packetisation mode,
+	// every fragment position) with what a legal RTP header may also carry: 0..3
+	// CSRC entries (RFC 3550 §5.1) and a header extension of 0..8 words (§5.3.1)
+	// with profile 0xABAC (ONVIF replay), 0xBEDE / 0x1000 (RFC 8285 one-byte /
+	// two-byte element blocks, well-formed and zero-padded) or any other value.
+	// MaxHeaderExtras bytes are then reserved out of MaxPacket.
+	HeaderExtras bool
 	// StartSeq fixes the first sequence number; nil = drawn (0, 65535, a start that
 	// makes the numbers wrap inside the stream, or anything).
 	StartSeq *uint16
 }
 
+// MaxHeaderExtras is the most HeaderExtras adds to a header: 3 CSRC entries,
+// the 4-byte extension header and 8 words of extension data.
+const MaxHeaderExtras = 3*4 + 4 + 8*4
+
 func (p *PackConfig) maxPayload() int {
+	n := p.MaxPacket - 12
 	if p.MaxPacket <= 12 {
-		return 65535 - 12
+		n = 65535 - 12
 	}
-	return p.MaxPacket - 12
+	if p.HeaderExtras {
+		n -= MaxHeaderExtras
+	}
+	return n
+}
+
+// DrawHeaderExtras decorates about a third of pkts (see PackConfig.HeaderExtras).
+func DrawHeaderExtras(t *rapid.T, pkts []rtppack.Pkt) {
+	for i := range pkts {
+		k := rapid.IntRange(0, 8).Draw(t, "hdr-extras")
+		if k > 2 {
+			continue
+		}
+		p := &pkts[i]
+		if k != 1 { // 0: CSRC + extension, 2: CSRC only ... 1: extension only
+			n := rapid.IntRange(1, 3).Draw(t, "csrc-count")
+			for j := 0; j < n; j++ {
+				p.CSRC = append(p.CSRC, rapid.Uint32().Draw(t, "csrc"))
+			}
+		}
+		if k == 2 {
+			continue
+		}
+		p.HasExt = true
+		words := rapid.SampledFrom([]int{0, 1, 1, 2, 3, 3, 4, 5, 8}).Draw(t, "ext-words")
+		p.Ext = make([]byte, 4*words)
+		switch rapid.IntRange(0, 3).Draw(t, "ext-profile-kind") {
+		case 0: // ONVIF Streaming Spec §6.3: NTP timestamp, flags C/E/D/T, CSeq, padding (3 words when complete)
+			p.ExtProfile = 0xABAC
+			copy(p.Ext, rapid.SliceOfN(rapid.Byte(), len(p.Ext), len(p.Ext)).Draw(t, "ext-onvif"))
+		case 1: // RFC 8285 §4.2 one-byte header: ID(4) L(4)=len-1, data; padding 0
+			p.ExtProfile = 0xBEDE
+			for off := 0; len(p.Ext)-off >= 2 && rapid.IntRange(0, 3).Draw(t, "ext-elem?") > 0; {
+				max := len(p.Ext) - off - 1
+				if max > 16 {
+					max = 16
+				}
+				l := rapid.IntRange(1, max).Draw(t, "ext-elem-len")
+				p.Ext[off] = byte(rapid.IntRange(1, 14).Draw(t, "ext-elem-id"))<<4 | byte(l-1)
+				copy(p.Ext[off+1:], rapid.SliceOfN(rapid.Byte(), l, l).Draw(t, "ext-elem-data"))
+				off += 1 + l
+			}
+		case 2: // RFC 8285 §4.3 two-byte header: ID(8) L(8), data; padding 0
+			p.ExtProfile = 0x1000
+			for off := 0; len(p.Ext)-off >= 2 && rapid.IntRange(0, 3).Draw(t, "ext-elem?") > 0; {
+				l := rapid.IntRange(0, len(p.Ext)-off-2).Draw(t, "ext-elem-len")
+				p.Ext[off] = byte(rapid.IntRange(1, 255).Draw(t, "ext-elem-id"))
+				p.Ext[off+1] = byte(l)
+				copy(p.Ext[off+2:], rapid.SliceOfN(rapid.Byte(), l, l).Draw(t, "ext-elem-data"))
+				off += 2 + l
+			}
+		default:
+			p.ExtProfile = rapid.Uint16().Draw(t, "ext-profile")
+			if p.ExtProfile == 0xBEDE || p.ExtProfile == 0x1000 {
+				p.ExtProfile ^= 0x0101
+			}
+			copy(p.Ext, rapid.SliceOfN(rapid.Byte(), len(p.Ext), len(p.Ext)).Draw(t, "ext-data"))
+		}
+	}
 }
 func (p *PackConfig) maxFrags() int {
 	if p.MaxFrags < 2 {
@@ -901,6 +971,9 @@ func Packetise(t *rapid.T, codec Codec, aus []AccessUnit, pc PackConfig) *Stream
 		s.Pkts = append(s.Pkts, rtppack.Pkt{PT: pt, Marker: p.marker, Seq: seq + uint16(i), TS: p.ts, SSRC: ssrc, Payload: p.payload})
 		s.Meta = append(s.Meta, p.meta)
 	}
+	if pc.HeaderExtras {
+		DrawHeaderExtras(t, s.Pkts)
+	}
 	return s
 }
 
@@ -1091,6 +1164,9 @@ func PacketiseAac(t *rapid.T, a AacConfig, units []Unit, pc PackConfig) *Stream 
 	for i, p := range out {
 		s.Pkts = append(s.Pkts, rtppack.Pkt{PT: pt, Marker: true, Seq: seq + uint16(i), TS: p.ts, SSRC: ssrc, Payload: p.payload})
 		s.Meta = append(s.Meta, p.meta)
+	}
+	if pc.HeaderExtras {
+		DrawHeaderExtras(t, s.Pkts)
 	}
 	return s
 }
